@@ -612,6 +612,15 @@ func (h *hist) genDraw() {
 		}
 		h.ctxOp(fmt.Sprintf("DrawPath %s %s %s", qf(x), qf(y), cq.List(pis)), fmt.Sprintf("DrawPath(%g,%g,%s)", x, y, strings.Join(ds, ",")),
 			func(c *canvas.Context) { c.DrawPath(x, y, ps...) })
+		if h.r.P(1, 3) {
+			// the same paths drawn again as an outline: a wide stroke on geometry that earlier content already covers
+			c := rng.Pick(h.r, w.colors)
+			wd := rng.Pick(h.r, []float64{2, 3, 6})
+			h.ctxOp("SetStrokeColor "+cq.Z(packCol(c)), fmt.Sprintf("SetStrokeColor(%v)", c), func(x *canvas.Context) { x.SetStrokeColor(c) })
+			h.ctxOp("SetStrokeWidth "+qf(wd), fmt.Sprintf("SetStrokeWidth(%g)", wd), func(x *canvas.Context) { x.SetStrokeWidth(wd) })
+			h.ctxOp(fmt.Sprintf("DrawPath %s %s %s", qf(x), qf(y), cq.List(pis)), fmt.Sprintf("DrawPath(%g,%g,%s)", x, y, strings.Join(ds, ",")),
+				func(c *canvas.Context) { c.DrawPath(x, y, ps...) })
+		}
 	case 4, 5, 6: // Fill / Stroke / FillStroke of the current path
 		if h.pstate == 1 { // a bare MoveTo: add a segment first
 			h.pathCmd()
